@@ -105,18 +105,20 @@ theorem addBody_good0 (expOk : List Char → Bool) {s s' : St} {body : List Char
       split at he
       · cases he
       · split at he
+        · cases he
         · split at he
-          · cases he
-          · cases he; exact ⟨hc, hx, ht⟩
-        · split at he
-          · cases he
-            refine ⟨hc, ?_, ht⟩
-            intro e hem
-            simp only [List.mem_append, List.mem_singleton] at hem
-            rcases hem with hem | rfl
-            · exact hx _ hem
-            · exact hb
-          · cases he
+          · split at he
+            · cases he
+            · cases he; exact ⟨hc, hx, ht⟩
+          · split at he
+            · cases he
+              refine ⟨hc, ?_, ht⟩
+              intro e hem
+              simp only [List.mem_append, List.mem_singleton] at hem
+              rcases hem with hem | rfl
+              · exact hx _ hem
+              · exact hb
+            · cases he
 
 theorem step_good (expOk : List Char → Bool) {s s' : St} {line : List Char} {i : Nat}
     (h : Good L ind s) (hm : line ∈ L) (he : step expOk ind s i line = .ok s') : Good L ind s' := by
